@@ -434,6 +434,11 @@ def run(ctx):
         if savex is not None:
             # a callback that was called twice or whose answers differ cannot be replayed by a constant
             savex = savex % (answers[0] if answers else 0) if len(set(answers)) <= 1 else None
+            if savex is not None and answers and abs(answers[0]) > (1 << 22):
+                # a tag header that claims ~2**28 bytes and a callback that keeps them: the real code writes 256 MiB of
+                # zeros; the model's byte lists are not made for that (tens of GB) - the real outcome is still checked
+                savex = None
+                ctx.hist["dsf:savex-skipped:huge-padding"] += 1
         reqs.append((line, impl, desc, savex))
         ncases += 1
         # C04 on the real constructor, and the model of its first part
